@@ -353,15 +353,15 @@ var classKinds = map[string][]string{
 // cacheClass names the input class of a crash in the cache ingest path: the
 // first corner, in the order the parts of the message are processed, that
 // explains the kind of failure.
-func cacheClass(pi *panicInfo, n *pb.Notification, st *cacheState) string {
+func cacheClass(pi *panicInfo, n *pb.Notification, st *cacheState) (class string, named bool) {
 	for _, c := range cornersOf(n, st) {
 		for _, k := range classKinds[c] {
 			if k == pi.Kind {
-				return c
+				return c, true
 			}
 		}
 	}
-	return fallbackClass(pi.Kind, n)
+	return fallbackClass(pi.Kind, n), false
 }
 
 // singleParts splits a multi-part notification into one notification per
@@ -427,17 +427,17 @@ func hasRootPathPart(r *pb.SubscribeResponse) bool {
 // streamClass names the input class of a crash in the client receive path or
 // the CLI display. culprit is the single response that reproduces the crash
 // on its own (nil when only the whole stream does).
-func streamClass(entry string, pi *panicInfo, culprit *pb.SubscribeResponse, all []*pb.SubscribeResponse) string {
+func streamClass(entry string, pi *panicInfo, culprit *pb.SubscribeResponse, all []*pb.SubscribeResponse) (class string, named bool) {
 	if culprit != nil {
 		if entry == "cli-group-display" && pi.Kind == "index-out-of-range" && hasRootPathPart(culprit) {
-			return "root-path-update"
+			return "root-path-update", true
 		}
-		return fallbackClass(pi.Kind, culprit)
+		return fallbackClass(pi.Kind, culprit), false
 	}
 	if entry == "cli-group-display" && pi.Kind == "index-out-of-range" {
 		for _, r := range all {
 			if hasRootPathPart(r) {
-				return "root-path-update"
+				return "root-path-update", true
 			}
 		}
 	}
@@ -445,7 +445,7 @@ func streamClass(entry string, pi *panicInfo, culprit *pb.SubscribeResponse, all
 	for _, r := range all {
 		sb.WriteString(fingerprint(r))
 	}
-	return pi.Kind + ":stream-fp-" + shortHash(sb.String())
+	return pi.Kind + ":stream-fp-" + shortHash(sb.String()), false
 }
 
 // ---- shrinking ------------------------------------------------------------------
@@ -514,6 +514,9 @@ func countEdits(m protoreflect.Message, depth int) int {
 		}
 		return true
 	})
+	if len(m.GetUnknown()) > 0 {
+		n++
+	}
 	return n
 }
 
@@ -587,6 +590,13 @@ func applyEdit(m protoreflect.Message, k *int, depth int) bool {
 			}
 			*k -= c
 		}
+	}
+	if len(m.GetUnknown()) > 0 {
+		if *k == 0 {
+			m.SetUnknown(nil)
+			return true
+		}
+		*k--
 	}
 	return false
 }
